@@ -10,21 +10,29 @@
   callbacks, deferred transmissions, application coroutines and server
   datagrams, with arbitrary QUIC event lists / timer values / headers as inputs.
 
-  What the rest of the stack guarantees is not assumed silently: the model
-  carries ghost ASSUMPTION MONITORS, booleans that become (and stay) true when an
-  input departs from such a guarantee, evaluated at the exact intermediate state:
-    vEv     C01/C09  an event after ConnectionTerminated; stream data after that stream's end_stream
-    vCid    C18      a ConnectionIdIssued whose ID is already routed; a ConnectionIdRetired for an ID that
-                     this connection has not issued or has already retired
-    vUid    CPython  `id(waiter)` equal to the uid of a live ping waiter
+  HYPOTHESES.  What the rest of the stack guarantees is stated as explicit predicates on the schedule,
+  and — where another property of this project proves it — DERIVED from that property's model:
+    LiveDistinct   CPython    `id(waiter)` handed to send_ping differs from the ids of the ping waiters alive
+                              (still registered) at that moment.  Nothing is assumed about dead objects: ids
+                              may be, and in CPython are, re-used after a waiter completed.
+    EventStreamOK  C09, C01   nothing follows ConnectionTerminated; per stream nothing follows the
+                              StreamDataReceived with end_stream.  `event_order_discharged` derives it from
+                              C09 `terminated_once` (AQ.CloseTimer) and C01 (`c01_nothing_after_end`, built on
+                              `c01_fin_once` / `c01_fin_sound` / `c01_prefix`, AQ.StreamSys) through the
+                              projections `termShape` / `streamView`.
+    UNFORGEABLE SEAL (crypto, named hypothesis of `token_bound`): `vSeal = false`, i.e. no datagram carried a
+                              token sealed under this server's key that the server never produced
+                              (`World.markSeal`; RSA-OAEP under a key pair that never leaves the handler).
+  Still ghost monitors (inputs of other layers not modelled in this project's C19 scope):
+    vCid    C18      a ConnectionIdIssued whose ID is already routed; a ConnectionIdRetired for an ID that this
+                     connection has not issued or has already retired
     vStream QUIC     create_stream() handed a stream ID that already has a reader, or called after termination
     vRand   urandom  a new connection's host CID that is already routed
-    vSeal   crypto   UNFORGEABLE SEAL: a datagram carried a token sealed under this server's key that the
-                     server never produced (`World.markSeal`)
-  Each theorem names the monitors it needs as hypotheses on the FINAL state
-  (monitors are monotone, so silence at the end is silence throughout).
+  Monitors are monotone, so silence in the FINAL state is silence throughout.  TRUSTED: asyncio runs each
+  modelled callback to completion (audited at run time by checks/c19.py: the modelled methods are plain
+  `def`s without yield points and never re-enter the loop).
 -/
-import AQ.Proofs.AdapterRouting
+import AQ.Proofs.AdapterEvents
 
 namespace AQ.Props.C19
 open AQ AQ.Adapter
@@ -33,7 +41,9 @@ open AQ AQ.Adapter
 
 /-- "every connect, ping and close waiter finishes exactly once, with success or a connection error"
 
-    For every schedule and every connection whose ping uids were unique among live waiters:
+    For every schedule whose ping uids are ids of simultaneously live objects (`LiveDistinct`: the uid of a
+    new ping differs from the uids of the waiters registered at that moment — NOT global uniqueness; a uid
+    may be re-used once its waiter has completed) and every connection:
     (1) no waiter is completed twice;
     (2) a completion is a normal return or ConnectionError, nothing else;
     (3) only started waiters are completed;
@@ -41,14 +51,15 @@ open AQ AQ.Adapter
         before or after that event — has been completed exactly once;
     (5) once HandshakeCompleted has been processed every wait_connected() caller — before or after —
         has been completed exactly once. -/
-theorem waiters_once (ops : List Op) (c : Nat) (k : Conn)
-    (hk : (run {} ops).conns[c]? = some k) (huid : k.p.vUid = false) :
+theorem waiters_once (ops : List Op) (hlive : LiveDistinct {} ops) (c : Nat) (k : Conn)
+    (hk : (run {} ops).conns[c]? = some k) :
     (∀ w, (ids k.p.log).count w ≤ 1) ∧
     (∀ e ∈ k.p.log, e.2 = Res.ok ∨ e.2 = Res.cerr) ∧
     (∀ w, w ∈ ids k.p.log → w ∈ k.p.created) ∧
     (k.p.termSeen = true → ∀ w ∈ k.p.created, (ids k.p.log).count w = 1) ∧
     (k.p.hsSeen = true → ∀ w ∈ k.p.connCreated, (ids k.p.log).count w = 1) := by
-  have h : WInv (run {} ops).nextWid k.p := run_ginv presW {} rfl (ginv_init _) ops c k hk huid
+  have huid : k.p.vUid = false := liveDistinct_silent ops hlive c k hk
+  have h : WInv (run {} ops).nextWid k.p := run_ginv presW {} rfl (ginv_init _) ops (by simp) c k hk huid
   have hle : ∀ w, (ids k.p.log).count w ≤ 1 := by
     intro w
     have h1 := h.cnt w
@@ -101,16 +112,17 @@ theorem waiters_once_counterexample :
 /-- "bytes … are read unchanged and in order from the peer's reader followed by end-of-file"
     (adapter part: the QUIC layer's StreamDataReceived events carry the peer's bytes, C01/C10).
 
-    For every schedule and every connection whose events respected C01/C09 and whose stream IDs were
-    fresh: each reader holds exactly the concatenation of the data of the StreamDataReceived events of
+    For every schedule and every connection whose processed events form a well-shaped event stream
+    (`EventStreamOK`, derived from C09 / C01 by `event_order_discharged`) and whose stream IDs were fresh: each reader holds exactly the concatenation of the data of the StreamDataReceived events of
     its stream, in event order; it is at EOF iff an end_stream for the stream or ConnectionTerminated
     has been processed; and `feed_data` was never called on a reader already at EOF. -/
 theorem reader_bytes (ops : List Op) (c : Nat) (k : Conn)
-    (hk : (run {} ops).conns[c]? = some k) (hev : k.p.vEv = false) (hst : k.p.vStream = false) :
+    (hk : (run {} ops).conns[c]? = some k) (hevs : EventStreamOK k.p.evLog) (hst : k.p.vStream = false) :
     (∀ sid r, k.p.readers.get sid = some r →
       r.data = dataOf sid k.p.evLog ∧ r.eof = (k.p.finSeen sid || k.p.termSeen)) ∧
     k.p.feedAfterEof = false := by
-  have h : RS k.p := run_ginv presR {} rfl (ginv_init _) ops c k hk hev hst
+  have hev : k.p.vEv = false := (vEv_iff_okLog ops c k hk).2 (okLog_of_eventStreamOK hevs)
+  have h : RS k.p := run_ginv presR {} rfl (ginv_init _) ops (by simp) c k hk hev hst
   exact ⟨h.inv.some_, h.clean⟩
 
 /-! ## timer and deferred transmission -/
@@ -121,7 +133,7 @@ theorem reader_bytes (ops : List Op) (c : Nat) (k : Conn)
     `transmit` callback queued on the loop (a deferred transmission is never lost). -/
 theorem timer_sync (ops : List Op) (c : Nat) (k : Conn) (hk : (run {} ops).conns[c]? = some k) :
     k.p.timer = k.p.timerAt ∧ (k.p.transmitTask = true → 1 ≤ k.p.pendingSoon) :=
-  run_ginv presT {} rfl (ginv_init _) ops c k hk
+  run_ginv presT {} rfl (ginv_init _) ops (by simp) c k hk
 
 /-- The only Python exceptions `_process_events` can let escape are the StreamReader assertion
     (`feed_data` after `feed_eof`) and the server's retire handler (KeyError / AssertionError); both are
@@ -139,19 +151,22 @@ theorem exceptions_detected (c : Ctx) (s : PS) (e : Bool × Ev) (err : Err)
 /-- "A server keeps every live connection reachable through each connection ID it has issued and not
     seen retired … and holds no routing entry for a connection after it terminates."
 
-    For every schedule in which connection IDs were fresh and retired only while live (C18, os.urandom)
-    and events respected C09: every server-side connection that has not processed ConnectionTerminated is
+    For every schedule in which connection IDs were fresh and retired only while live (C18, os.urandom:
+    monitors `vCid`, `vRand`) and every connection's processed events are a well-shaped event stream
+    (`EventStreamOK`, derived from C09 / C01): every server-side connection that has not processed ConnectionTerminated is
     the routing target of every ID the QUIC layer has issued for it and not retired; every routing entry
     points to such a live server-side connection (none to a terminated one, none to a client); and the
     retire handler never raised. -/
 theorem routing_inv (ops : List Op)
     (hrand : (run {} ops).vRand = false)
-    (hmon : ∀ (c : Nat) (k : Conn), (run {} ops).conns[c]? = some k → k.p.vEv = false ∧ k.p.vCid = false) :
+    (hmon : ∀ (c : Nat) (k : Conn), (run {} ops).conns[c]? = some k → EventStreamOK k.p.evLog ∧ k.p.vCid = false) :
     (∀ (c : Nat) (k : Conn), (run {} ops).conns[c]? = some k → k.ss = true → k.p.termSeen = false →
       ∀ cid, cid ∈ k.p.issuedG → cid ∉ k.p.retiredG → (run {} ops).tbl.get cid = some c) ∧
     (∀ e ∈ (run {} ops).tbl, ∃ k : Conn, (run {} ops).conns[e.2]? = some k ∧ k.ss = true ∧ k.p.termSeen = false) ∧
     (∀ (c : Nat) (k : Conn), (run {} ops).conns[c]? = some k → k.p.retireFailed = false) := by
-  have h := run_tw {} rfl ops ⟨hrand, hmon⟩ tw_init
+  have hmon' : ∀ (c : Nat) (k : Conn), (run {} ops).conns[c]? = some k → k.p.vEv = false ∧ k.p.vCid = false :=
+    fun c k hk => ⟨(vEv_iff_okLog ops c k hk).2 (okLog_of_eventStreamOK (hmon c k hk).1), (hmon c k hk).2⟩
+  have h := run_tw {} rfl ops ⟨hrand, hmon'⟩ tw_init
   exact ⟨h.inv.reach, h.inv.entries, h.ok⟩
 
 /-- Today's `transmit()` leaves the events raised while sending in the queue: after the single step
@@ -165,6 +180,39 @@ theorem routing_counterexample :
         (fun k => (k.p.termSeen, k.p.issuedG, k.p.retiredG))) = some (false, [[2], [3]], []) ∧
     (run { q := Quirks.today } [.sdgram 0 (.h [1] true true .empty) [2] none [] [.issued [3]]]).tbl.get [3] = none :=
   ⟨by decide, by decide, by decide, by decide⟩
+
+/-! ## the event-order hypothesis is what C09 and C01 prove -/
+
+/-- `EventStreamOK` is exactly the condition under which the model's event-order monitor stays silent:
+    for every schedule, `vEv = false` iff the events the connection processed are a well-shaped stream. -/
+theorem event_order_exact (ops : List Op) (c : Nat) (k : Conn) (hk : (run {} ops).conns[c]? = some k) :
+    k.p.vEv = false ↔ EventStreamOK k.p.evLog :=
+  ⟨fun h => eventStreamOK_of_okLog ((vEv_iff_okLog ops c k hk).1 h),
+   fun h => (vEv_iff_okLog ops c k hk).2 (okLog_of_eventStreamOK h)⟩
+
+/-- C01, completed: over ANY lossy-network schedule of the stream system (`StreamSys.WF`: delivery reports
+    name frames that were emitted and not yet reported — C08), after the StreamDataReceived that carries
+    end_stream the stream hands NO further StreamDataReceived to the application. -/
+theorem c01_nothing_after_end (id : Nat) (ops : List StreamSys.Op) (hw : StreamSys.WF (StreamSys.init id) ops) :
+    ∀ pre e post, evTrace (StreamSys.init id) ops = pre ++ e :: post → e.endStream = true → post = [] :=
+  AQ.Adapter.c01_nothing_after_end id ops hw
+
+/-- The refinement map.  Let `l` be the events an adapter connection has processed.  If
+    * the termination shape of `l` (`termShape`) is the shape of a prefix of the event log of a reachable
+      state of C09's connection model (`CloseTimer.run`, documented usage), and
+    * for every stream, the StreamDataReceived events of `l` (`streamView`) are a prefix of the events of a
+      run of C01's stream system,
+    then `l` satisfies `EventStreamOK` — so the hypothesis of `reader_bytes` / `routing_inv` is DISCHARGED by
+    `AQ.Props.C09.terminated_once` and C01, not assumed. -/
+theorem event_order_discharged {T : Type} (A : Recovery.FArith T) (c : Bool) (cops : List (CloseTimer.Op T))
+    (hu : CloseTimer.Usage A (CloseTimer.Conn.init c) cops)
+    (l : List Ev) (pre : List CloseTimer.Ev)
+    (hp : pre <+: (CloseTimer.run A (CloseTimer.Conn.init c) cops).log)
+    (hs : termShape l = pre.map CloseTimer.Ev.isTerm)
+    (hstreams : ∀ sid, ∃ (id : Nat) (ops : List StreamSys.Op), StreamSys.WF (StreamSys.init id) ops ∧
+      streamView sid l <+: evTrace (StreamSys.init id) ops) :
+    EventStreamOK l :=
+  eventStreamOK_of_models A c cops hu l pre hp hs hstreams
 
 /-! ## retry tokens -/
 
@@ -242,6 +290,39 @@ example : demoWorld.conns.map (fun k => k.p.log) =
   decide
 example : (demoWorld.tbl, demoWorld.createdG.length) = ([], 1) := by decide
 
+/-! ### the explicit hypotheses are satisfiable — and not trivially so -/
+
+-- the demo schedule re-uses ping uid 5 after its first waiter completed: allowed
+example : LiveDistinct {} demo := by decide
+example : LiveDistinct {} [.newConn, .ping 0 5 none [], .dgram 0 none [.pingAck 5] [], .ping 0 5 none []] := by decide
+-- the same uid for two simultaneously live waiters is what the hypothesis excludes (the model then loses a waiter)
+example : ¬ LiveDistinct {} [.newConn, .ping 0 5 none [], .ping 0 5 none []] := by decide
+example : ((run {} [.newConn, .ping 0 5 none [], .ping 0 5 none [], .dgram 0 none [.terminated] []]).conns[0]?.map
+    (fun k => (k.p.created, k.p.log))) = some ([0, 1], [(1, Res.cerr)]) := by decide
+
+-- every connection of the demo world processed a well-shaped event stream
+example : demoWorld.conns.all (fun k => okLog k.p.evLog) = true := by decide
+example : EventStreamOK [Ev.handshake, .data 0 [1] false, .data 4 [7] true, .data 0 [2] true, .terminated] :=
+  eventStreamOK_of_okLog (by decide)
+example : ¬ EventStreamOK [Ev.data 0 [1] true, .data 0 [2] false] :=
+  fun h => h.end_last 0 [] [1] [.data 0 [2] false] rfl [2] false (by simp)
+
+/-- `event_order_discharged` instantiated: C09's idle-timeout demo (log = [other, ConnectionTerminated]) and
+    C01's duplicated-FIN schedule (the stream system emits ONE event for two deliveries of the FIN frame)
+    justify the adapter event list [StreamDataReceived(0, [1,2], end), ConnectionTerminated] -/
+example : EventStreamOK [Ev.data 0 [1, 2] true, .terminated] := by
+  refine event_order_discharged AQ.Props.C09.natArith false AQ.Props.C09.demoIdle
+    ⟨(fun h => nomatch h), trivial, trivial, trivial⟩ _ [.other, .terminated (some CloseTimer.idleEv)]
+    ⟨[], by decide⟩ (by decide) ?_
+  intro sid
+  refine ⟨0, AQ.Props.C01.dupFinOps, by decide, ?_⟩
+  by_cases h : sid = 0
+  · subst h
+    have : evTrace (StreamSys.init 0) AQ.Props.C01.dupFinOps = [⟨[1, 2], true⟩] := by decide
+    rw [this]; simp [streamView]
+  · have h' : ¬ (0 = sid) := fun e => h e.symm
+    simp [streamView, h']
+
 end AQ.Props.C19
 
 #print axioms AQ.Props.C19.waiters_once
@@ -251,6 +332,9 @@ end AQ.Props.C19
 #print axioms AQ.Props.C19.exceptions_detected
 #print axioms AQ.Props.C19.routing_inv
 #print axioms AQ.Props.C19.routing_counterexample
+#print axioms AQ.Props.C19.event_order_exact
+#print axioms AQ.Props.C19.c01_nothing_after_end
+#print axioms AQ.Props.C19.event_order_discharged
 #print axioms AQ.Props.C19.token_bound
 #print axioms AQ.Props.C19.encode_address_injective
 #print axioms AQ.Props.C19.encode_address_total
